@@ -40,6 +40,7 @@ const (
 	tyI64s // []int64
 	tyU64s // []uint64
 	tyF64s // []float64 (as bit patterns)
+	tyU32s // [N]uint32 (elements carried as uint64 below 2^32)
 )
 
 // functions translated, in dependency order (callees first is not required)
@@ -55,7 +56,7 @@ var goSrcFuncs = []string{
 	"Array.AsFloat", "Array.AsInteger", "Array.AsUint64",
 	"ParsedJson.get_current_loc", "ParsedJson.write_tape", "ParsedJson.writeTapeTagVal", "ParsedJson.writeTapeTagValFlags",
 	"ParsedJson.write_tape_s64", "ParsedJson.write_tape_double", "ParsedJson.annotate_previousloc", "parseString", "addNumber",
-	"min", "max", "fmtF", "appendFloatF", "appendFloat",
+	"min", "max", "fmtF", "appendFloatF", "appendFloat", "Serializer.indexString",
 }
 
 // functions in which constant expressions are folded (as the compiler does) before printing; the functions translated
@@ -63,6 +64,10 @@ var goSrcFuncs = []string{
 var goSrcFoldConsts = map[string]bool{"appendFloatF": true, "fmtF": true, "appendFloat": true, "min": true, "max": true}
 
 type goBlock struct {
+	skipNested []string     // expression statements left out wherever they occur inside the block
+	until string            // the block ends before the first statement (after its start) that begins with this text
+	kinds map[string]string // struct-typed free names → kind
+
 	fn, lean, from string
 	skip         []string
 	tapes        map[string]string
@@ -75,6 +80,12 @@ var goSrcBlocks = []goBlock{
 	{fn: "Serializer.Deserialize", lean: "goDeserialize_rebuild", from: "var off int", skip: []string{"sWG", "stringsErr"},
 		tapes: map[string]string{"dst.Tape": "dst"}, frees: map[string]gty{"s.tagsBuf": tyBytes, "s.valuesBuf": tyBytes},
 		locals: map[string]gty{"dst": tyPtr}, rtys: []gty{tyPtr, tyErr}},
+	{fn: "Serializer.Serialize", lean: "goSerialize_loop", from: "s.valuesBuf = s.valuesBuf[:0]", until: "wg.Add(3)", skipNested: []string{"wg.Wait()"},
+		tapes: map[string]string{"pj.Tape": "pj"}, frees: map[string]gty{"tagWr.out": tyBytes, "valWr.out": tyBytes},
+		kinds: map[string]string{"s": "Serializer", "pj": "ParsedJson"}, locals: map[string]gty{}, rtys: []gty{}},
+	{fn: "Serializer.Serialize", lean: "goSerialize_assemble", from: "dst = append(dst, serializedVersion)", skip: []string{"if false {"},
+		tapes: map[string]string{"pj.Tape": "pj"}, frees: map[string]gty{"s.sMsg": tyBytes, "s.tagsCompBuf": tyBytes, "s.valuesCompBuf": tyBytes, "s.stringBuf": tyBytes},
+		locals: map[string]gty{"dst": tyBytes, "tmp": tyBytes, "rawTags": tyInt, "rawValues": tyInt}, rtys: []gty{tyBytes}},
 }
 
 // struct kinds whose values are flattened into variables `<name>.<field>`; every kind has a tape slice whose length
@@ -90,6 +101,7 @@ var structKinds = map[string]structKind{
 	"Object":     {fields: []string{"off"}, ftypes: map[string]gty{"off": tyInt}},
 	"Array":      {fields: []string{"off"}, ftypes: map[string]gty{"off": tyInt}},
 	"ParsedJson": {fields: []string{}, ftypes: map[string]gty{}},
+	"Serializer": {fields: []string{"stringsTable", "stringBuf", "stringWr.out", "tagsBuf", "valuesBuf", "memHash.answers"}, ftypes: map[string]gty{"memHash.answers": tyU64s, "stringsTable": tyU32s, "stringBuf": tyBytes, "stringWr.out": tyBytes, "tagsBuf": tyBytes, "valuesBuf": tyBytes}, noTape: true},
 	"decimalSlice": {fields: []string{"d", "nd", "dp", "neg"}, ftypes: map[string]gty{"d": tyBytes, "nd": tyInt, "dp": tyInt, "neg": tyBool}, noTape: true},
 }
 
@@ -155,6 +167,8 @@ type gsTr struct {
 	tapes  map[string]string // other tape slices by source text (`dst.Tape`) → base name
 	frees  map[string]gty    // free variables of a translated block by source text (`s.tagsBuf`)
 	rtys   []gty             // result types when translating a block of a function whose results are not all scalars
+	skipStmts []string       // expression statements left out wherever they occur (waits on goroutines)
+	arr8   map[string]bool   // locals declared as [8]byte
 }
 
 func gsDie(n ast.Node, format string, a ...interface{}) {
@@ -493,6 +507,15 @@ func (t *gsTr) expr(e ast.Expr, want gty) (string, gty) {
 				return fmt.Sprintf("(.idxB %s %s)", a, idx), tyU8
 			}
 		}
+		if sx, ok := x.X.(*ast.SelectorExpr); ok {
+			if id, ok := sx.X.(*ast.Ident); ok && t.kinds[id.Name] != "" && structKinds[t.kinds[id.Name]].ftypes[sx.Sel.Name] == tyU32s {
+				idx, ity := t.expr(x.Index, tyInt)
+				if ity != tyInt && ity != tyU64 {
+					gsDie(e, "array index type")
+				}
+				return fmt.Sprintf("(.idxU (.v %s) %s)", strconv.Quote(id.Name+"."+sx.Sel.Name), idx), tyU32
+			}
+		}
 		if id, ok := x.X.(*ast.Ident); ok && (id.Name == "shouldEscape" || id.Name == "valToHex") {
 			idx, ity := t.expr(x.Index, tyU8)
 			if ity != tyU8 {
@@ -533,6 +556,17 @@ func (t *gsTr) expr(e ast.Expr, want gty) (string, gty) {
 				}
 				return a, tyBytes
 			}
+			if id.Name == "uint32" {
+				a, aty := t.expr(x.Args[0], tyInt)
+				switch aty {
+				case tyInt:
+					a = "(.conv .u64 " + a + ")"
+				case tyU64, tyU32:
+				default:
+					gsDie(e, "uint32 conversion operand")
+				}
+				return fmt.Sprintf("(.bin .and %s (.u64 4294967295))", a), tyU32 // truncation to 32 bits; carried as a uint64
+			}
 			if ty := tyOfTypeExpr(id); ty == tyInt || ty == tyU64 || ty == tyU8 || ty == tyF64 {
 				wantA := ty
 				if ty == tyF64 {
@@ -553,6 +587,9 @@ func (t *gsTr) expr(e ast.Expr, want gty) (string, gty) {
 					return fmt.Sprintf("(.f2u %s)", a), tyU64
 				case ty == tyF64 || aty == tyF64:
 					gsDie(e, "float conversion")
+				}
+				if aty == tyU32 {
+					aty = tyU64 // carried as a uint64 below 2^32
 				}
 				if aty != tyInt && aty != tyU64 && aty != tyU8 {
 					gsDie(e, "conversion operand")
@@ -705,6 +742,47 @@ func (t *gsTr) expr(e ast.Expr, want gty) (string, gty) {
 				gsDie(e, "Uint64 operand")
 			}
 			return fmt.Sprintf("(.le64 %s)", a), tyU64
+		}
+		if nows(src(x.Fun)) == "binary.PutUvarint" && len(x.Args) == 2 {
+			// n := binary.PutUvarint(tmp[:], v): by contract the encoding is written to the front of tmp; an encoding longer
+			// than tmp is an index out of range (the library writes byte by byte)
+			sl, ok := x.Args[0].(*ast.SliceExpr)
+			if !ok || sl.Low != nil || sl.High != nil {
+				gsDie(e, "PutUvarint buffer")
+			}
+			bid, ok := sl.X.(*ast.Ident)
+			if !ok || t.locals[bid.Name] != tyBytes {
+				gsDie(e, "PutUvarint buffer")
+			}
+			if t.lazy > 0 {
+				gsDie(e, "call under the right operand of && or ||")
+			}
+			v, vty := t.expr(x.Args[1], tyU64)
+			if vty != tyU64 {
+				gsDie(e, "PutUvarint operand")
+			}
+			t.ntemp++
+			tmp := fmt.Sprintf("#c%d", t.ntemp)
+			t.pre = append(t.pre, fmt.Sprintf(".extAssign [%s, %s, %s] \"PutUvarint\" [(.v %s), %s]", strconv.Quote(bid.Name), strconv.Quote(tmp), strconv.Quote(tmp+".ok"), strconv.Quote(bid.Name), v),
+				fmt.Sprintf(".ite (.not (.v %s)) [.panicS /- index out of range inside binary.PutUvarint -/] []", strconv.Quote(tmp+".ok")))
+			return fmt.Sprintf("(.v %s)", strconv.Quote(tmp)), tyInt
+		}
+		if fid, isId := x.Fun.(*ast.Ident); isId && fid.Name == "memHash" && len(x.Args) == 1 {
+			// runtime.memhash, seeded per process: known only to return some uint64 (an oracle: the next of `memHash.answers`)
+			if t.lazy > 0 {
+				gsDie(e, "call under the right operand of && or ||")
+			}
+			if _, aty := t.expr(x.Args[0], tyBytes); aty != tyBytes {
+				gsDie(e, "memHash operand")
+			}
+			t.ntemp++
+			tmp := fmt.Sprintf("#c%d", t.ntemp)
+			// (the answers travel with the receiver: a callee's frame holds only its receiver's fields and its parameters)
+			if t.recv == "" || structKinds[t.kinds[t.recv]].ftypes["memHash.answers"] != tyU64s {
+				gsDie(e, "memHash outside a method of Serializer")
+			}
+			t.pre = append(t.pre, fmt.Sprintf(".oracle %s %s", strconv.Quote(tmp), strconv.Quote(t.recv+".memHash")))
+			return fmt.Sprintf("(.v %s)", strconv.Quote(tmp)), tyU64
 		}
 		if fid, isId := x.Fun.(*ast.Ident); isId && t.locals[fid.Name] == tyUnk {
 			isFn := false
@@ -1703,6 +1781,31 @@ func (t *gsTr) stmt0(s ast.Stmt, ind string) string {
 				}
 				return fmt.Sprintf(".setLen %s %s", strconv.Quote(base), e)
 			}
+			// s.f[idx] = e for an array / byte slice field of a plain struct
+			if ix, ok := x.Lhs[0].(*ast.IndexExpr); ok {
+				if sx, ok := ix.X.(*ast.SelectorExpr); ok {
+					if id, ok := sx.X.(*ast.Ident); ok && t.kinds[id.Name] != "" && structKinds[t.kinds[id.Name]].noTape && !t.readonly[id.Name] {
+						fty := structKinds[t.kinds[id.Name]].ftypes[sx.Sel.Name]
+						name := id.Name + "." + sx.Sel.Name
+						if fty == tyU32s {
+							idx, ity := t.expr(ix.Index, tyInt)
+							e, ety := t.expr(x.Rhs[0], tyU32)
+							if (ity != tyInt && ity != tyU64) || ety != tyU32 {
+								gsDie(s, "array store types")
+							}
+							return fmt.Sprintf(".setU %s %s %s", strconv.Quote(name), idx, e)
+						}
+						if fty == tyBytes {
+							idx, ity := t.expr(ix.Index, tyInt)
+							e, ety := t.expr(x.Rhs[0], tyU8)
+							if ity != tyInt || ety != tyU8 {
+								gsDie(s, "byte store types")
+							}
+							return fmt.Sprintf(".setB %s %s %s", strconv.Quote(name), idx, e)
+						}
+					}
+				}
+			}
 			// b[idx] = e for a byte slice variable
 			if ix, ok := x.Lhs[0].(*ast.IndexExpr); ok {
 				if bid, ok := ix.X.(*ast.Ident); ok && t.locals[bid.Name] == tyBytes {
@@ -1934,6 +2037,12 @@ func (t *gsTr) stmt0(s ast.Stmt, ind string) string {
 		if at, ok := vs.Type.(*ast.ArrayType); ok && at.Len != nil {
 			if el, ok := at.Elt.(*ast.Ident); ok && (el.Name == "uint8" || el.Name == "byte") {
 				ty, zero = tyBytes, fmt.Sprintf("(.zerosB %s)", t.p.eval(at.Len, 0).String()) // a byte array used through slices of it
+				if t.p.eval(at.Len, 0).String() == "8" {
+					if t.arr8 == nil {
+						t.arr8 = map[string]bool{}
+					}
+					t.arr8[vs.Names[0].Name] = true
+				}
 			}
 		}
 		if zero == "" {
@@ -2064,6 +2173,43 @@ func (t *gsTr) stmt0(s ast.Stmt, ind string) string {
 		}
 		if cbs, ok := t.callback(call, "_"); ok {
 			return cbs
+		}
+		for _, k := range t.skipStmts {
+			if nows(src(x.X)) == nows(k) {
+				return ".ite (.bool true) [] [] /- not translated (modelled by contract): " + k + " -/"
+			}
+		}
+		if id, ok := call.Fun.(*ast.Ident); ok && id.Name == "panic" && len(call.Args) == 1 {
+			return ".panicS /- " + strings.ReplaceAll(stmtText(s), "-/", "- /") + " -/"
+		}
+		// w.Write(b) for an io.Writer known by contract only to receive the bytes in order: the variable `w.out`
+		if sel, ok := call.Fun.(*ast.SelectorExpr); ok && sel.Sel.Name == "Write" && len(call.Args) == 1 {
+			w := nows(src(sel.X)) + ".out"
+			wty := t.frees[w]
+			if sx, ok := sel.X.(*ast.SelectorExpr); ok {
+				if id, ok := sx.X.(*ast.Ident); ok && t.kinds[id.Name] != "" {
+					wty = structKinds[t.kinds[id.Name]].ftypes[sx.Sel.Name+".out"]
+				}
+			}
+			if wty == tyBytes {
+				a, aty := t.expr(call.Args[0], tyBytes)
+				if aty != tyBytes {
+					gsDie(s, "Write operand")
+				}
+				return fmt.Sprintf(".assign %s (.appendB (.v %s) %s)", strconv.Quote(w), strconv.Quote(w), a)
+			}
+		}
+		// binary.LittleEndian.PutUint64(tmp[:], v) for a local [8]byte
+		if nows(src(call.Fun)) == "binary.LittleEndian.PutUint64" && len(call.Args) == 2 {
+			if sl, ok := call.Args[0].(*ast.SliceExpr); ok && sl.Low == nil && sl.High == nil {
+				if bid, ok := sl.X.(*ast.Ident); ok && t.locals[bid.Name] == tyBytes && t.arr8[bid.Name] {
+					v, vty := t.expr(call.Args[1], tyU64)
+					if vty != tyU64 {
+						gsDie(s, "PutUint64 operand")
+					}
+					return fmt.Sprintf(".assign %s (.leBytes %s)", strconv.Quote(bid.Name), v)
+				}
+			}
 		}
 		if id, ok := call.Fun.(*ast.Ident); ok && id.Name == "ryuFtoaShortest" && len(call.Args) == 3 {
 			u, ok := call.Args[0].(*ast.UnaryExpr)
@@ -2276,6 +2422,10 @@ func genGoSrc(p *pkgInfo, out string) {
 		for n, ty := range bs.locals {
 			t.locals[n] = ty
 		}
+		for n, k := range bs.kinds {
+			t.kinds[n] = k
+		}
+		t.skipStmts = bs.skipNested
 		var list []ast.Stmt
 		var skipped []string
 		started := false
@@ -2283,9 +2433,18 @@ func genGoSrc(p *pkgInfo, out string) {
 			txt := stmtText(st)
 			if !started {
 				if !strings.HasPrefix(txt, bs.from) {
+					// constants declared in front of the block are known inside it
+					if ds, ok := st.(*ast.DeclStmt); ok {
+						if gd, ok := ds.Decl.(*ast.GenDecl); ok && gd.Tok == token.CONST {
+							t.stmt0(st, "")
+						}
+					}
 					continue
 				}
 				started = true
+			}
+			if bs.until != "" && strings.HasPrefix(txt, bs.until) {
+				break
 			}
 			skip := false
 			for _, k := range bs.skip {
@@ -2311,8 +2470,13 @@ func genGoSrc(p *pkgInfo, out string) {
 			die("gosrc: %s: no statement starts with %q (statements: %s)", bs.fn, bs.from, strings.Join(heads, " | "))
 		}
 		pos := fset.Position(list[0].Pos())
-		fmt.Fprintf(&b, "/-- `%s`, from `%s` to the end — %s:%d. Not translated (goroutine joins, modelled by contract): %s -/\ndef %s : FunDef := { recv := \"\", params := [], body := %s }\n\n",
-			bs.fn, bs.from, filepath.Base(pos.Filename), pos.Line, strings.ReplaceAll(strings.Join(skipped, " | "), "-/", "- /"), bs.lean, t.block(list, ""))
+		to := "the end"
+		if bs.until != "" {
+			to = "before `" + bs.until + "`"
+		}
+		skipped = append(skipped, bs.skipNested...)
+		fmt.Fprintf(&b, "/-- `%s`, from `%s` to %s — %s:%d. Not translated (goroutine joins, modelled by contract): %s -/\ndef %s : FunDef := { recv := \"\", params := [], body := %s }\n\n",
+			bs.fn, bs.from, to, filepath.Base(pos.Filename), pos.Line, strings.ReplaceAll(strings.Join(skipped, " | "), "-/", "- /"), bs.lean, t.block(list, ""))
 	}
 	sort.Strings(names)
 	b.WriteString("/-- the translated functions by name -/\ndef goFuns (n : String) : Option FunDef :=\n")
